@@ -325,8 +325,11 @@ class Paraxial:
                 raise ValueError('Field type cannot be "object_height" for an '
                                  'object at infinity.')
 
-            y = -np.tan(np.radians(field_y)) * EPL
-            z = self.optic.surface_group.positions[1]
+            # start in front of both the first surface and the entrance
+            # pupil, so that the slope (y1 - y0) / (EPL - z0) is defined even
+            # when the pupil lies on the first surface
+            z = np.minimum(self.optic.surface_group.positions[1], EPL) - 1
+            y = -np.tan(np.radians(field_y)) * (EPL - z)
 
             y0 = y1 + y
             z0 = np.ones_like(y1) * z
